@@ -2,6 +2,7 @@
 import Driver.Proto
 import Driver.RunH
 import Lace.Model.Debugger
+import Lace.Model.Eval
 open Lace Lace.Driver Lace.Dbg Lace.Cmd
 
 namespace Lace.Driver
@@ -113,12 +114,13 @@ def parseDbgReq (toks : List String) : Option DbgReq := do
   | _ => none
 
 /-- Environment of a `.orig`/`.fill` source: every statement's text is `.fill xWWWW`. -/
-def fillEnv (r : DbgReq) : Env :=
-  { stackOn := r.so, minimal := true,
+def fillEnv (r : DbgReq) (mi : Bool := true) : Env :=
+  { stackOn := r.so, minimal := mi,
     symtab := r.labels.map fun (n, k) => (n, BitVec.ofNat 16 (k + 1)),
     stmtText := fun i => (r.words[i]?).map fun w => ".fill x".toList ++ hex4U w,
     stmtCount := r.words.length,
-    eval := fun _ _ _ => .refused ["<eval>".toList] }
+    eval := fun m w text =>
+      evalInner r.so mi (r.labels.map fun (n, k) => (n, k + 1)) r.orig m w text }
 
 def showBps (attached : Bool) (d : Dbg) : String :=
   if !attached then "-" else
@@ -157,7 +159,7 @@ def handleDbg (tag : String) (toks : List String) : String :=
     | .exit c => "M loadexit " ++ toString c ++ " | -"
     | .panic _ => "M loadpanic | -"
     | .ok loaded =>
-      let env := { fillEnv r with minimal := !nm }
+      let env := fillEnv r (!nm)
       let w : World := { inp := r.inp, outRev := [] }
       let d := newDbg loaded (r.breaks.map (BitVec.ofNat 16)) r.cmds
       let fmt (head : String) (att : Bool) (d : Dbg) (m : Machine) (w : World) (ex : List Word) :
